@@ -94,11 +94,11 @@ def binaries():
     S = os.path.join(VERIF, "sched")
     return {
         "dict_rc": ("asan", [H + "/dict_case.cpp", H + "/rc_main.cpp", H + "/common.cpp"], "", "-lrapidcheck", True),
-        "comp_rc": ("asan", [H + "/comp_case.cpp", H + "/rc_main.cpp", H + "/common.cpp"], "", "-lrapidcheck", True),
+        "comp_rc": ("asan", [H + "/comp_case.cpp", H + "/rc_main.cpp", H + "/common.cpp"], "-fno-access-control", "-lrapidcheck", True),
         "dict_fz": ("fuzz", [H + "/dict_case.cpp", H + "/fz_main.cpp", H + "/common.cpp"], "", "", True),
-        "comp_fz": ("fuzz", [H + "/comp_case.cpp", H + "/fz_main.cpp", H + "/common.cpp"], "", "", True),
+        "comp_fz": ("fuzz", [H + "/comp_case.cpp", H + "/fz_main.cpp", H + "/common.cpp"], "-fno-access-control", "", True),
         "dict_plain": ("plain", [H + "/dict_case.cpp", H + "/rc_main.cpp", H + "/common.cpp"], "-DVERIF_PLAIN", "-lrapidcheck", True),
-        "comp_plain": ("plain", [H + "/comp_case.cpp", H + "/rc_main.cpp", H + "/common.cpp"], "-DVERIF_PLAIN -O2", "-lrapidcheck", True),
+        "comp_plain": ("plain", [H + "/comp_case.cpp", H + "/rc_main.cpp", H + "/common.cpp"], "-DVERIF_PLAIN -O2 -fno-access-control", "-lrapidcheck", True),
         "sched_rc": ("plain", [H + "/sched_case.cpp", H + "/rc_main.cpp", H + "/common.cpp", S + "/vsched.cpp"], "-DVERIF_PLAIN -DVERIF_SCHED", "-lrapidcheck -ldl -lpthread", True),
         "race_rc": ("tsan", [H + "/race_case.cpp", H + "/rc_main.cpp", H + "/common.cpp"], "-DVERIF_TSAN", "-lrapidcheck -lpthread", True),
     }
